@@ -57,6 +57,19 @@ def run(sc):
             msg = TaskiqMessage(task_id='i', task_name='t', labels={}, args=[raw], kwargs={}); parse_params(sig, {'p0': ann}, msg); got_.append(msg.args[0])
         if got_[0] is got_[1] and not isinstance(got_[0], (tuple, frozenset, int, str)):
             for pid in ('C06', 'C08'): fails.append({'key': f"shared-parsed-object/{ann}", 'failed_clauses': [f"{pid}: two messages with the equal raw value {raw!r} for a parameter annotated {ann} received THE SAME {type(got_[0]).__name__} object: what one execution does to it is seen by the other"]})
+    # history: messages carrying EQUAL BUT DIFFERENTLY TYPED scalars (1 == True == 1.0 and they hash alike) for a parameter whose annotation keeps the type
+    for ann in (_t.Any, _t.Union[bool, int], _t.Union[int, float]):
+        sig = inspect.Signature([inspect.Parameter('p0', inspect.Parameter.POSITIONAL_OR_KEYWORD, annotation=ann)]); seq = [1, True, 1.0, 0, False, 0.0, True, 1]
+        lone = []
+        for raw in seq:          # what a fresh conversion gives for each value on its own (the reference), taken from pydantic directly
+            try: lone.append(pydantic.TypeAdapter(ann).validate_python(raw))
+            except Exception: lone.append(raw)
+        got_ = []
+        for raw in seq:
+            n += 1; msg = TaskiqMessage(task_id='i', task_name='t', labels={}, args=[raw], kwargs={}); parse_params(sig, {'p0': ann}, msg); got_.append(msg.args[0])
+        bad = [(raw, g, w) for raw, g, w in zip(seq, got_, lone) if type(g) is not type(w) or g != w]
+        if bad:
+            for pid in ('C06', 'C08'): fails.append({'key': f"equal-scalars-history/{ann}", 'failed_clauses': [f"{pid}: messages carrying {seq} in turn for a parameter annotated {ann}: the task function received {got_}; e.g. the message that carried {bad[0][0]!r} received {bad[0][1]!r} ({type(bad[0][1]).__name__}), the value parsed from an EARLIER message"]})
     # user validation code that raises RuntimeError (not ValueError) while converting: "not convertible" -> the value is delivered unchanged, positionally or by keyword
     import dataclasses
     @dataclasses.dataclass
